@@ -109,6 +109,11 @@ func c09Inputs(tier string) []c09Input {
 		m("a", 2, "b", m("x", "$delete", "y", 5, "w", 1), "c", []any{m("$match", m("k", 1), "v", 9)}))
 	add("layer-useless-two", "json", m("a", 1, "b", 2, "c", 3), m("a", 1, "b", 2, "d", 4))
 	add("layer-replace", "json", m("a", m("x", 1, "y", 2)), m("a", m("$replace", true, "p", 1, "q", 2, "r", 3)))
+	add("layer-replace-with-restated-key", "json", m("a", m("x", 1, "y", 2)), m("a", m("$replace", true, "x", 1, "z", 3)))
+	add("layer-replace-root-with-restated-key", "json", m("x", 1, "y", 2), m("$replace", true, "x", 1, "q", m("r", 1)))
+	add("layer-replace-with-delete-of-missing", "json", m("a", m("x", 1)), m("a", m("$replace", true, "nope", "$delete", "k", 1)))
+	add("layer-replace-with-kind-change", "json", m("a", m("x", m("d", 1), "l", []any{1})), m("a", m("$replace", true, "x", 5, "l", m("m", 1))))
+	add("layer-two-rejections", "json", m("a", 1, "l", []any{1}, "m", m("k", 1)), m("a", 1, "l", m("x", 1), "m", 5, "zz", "$delete"))
 	add("layer-fanout", "json", m("l", []any{m("k", 1, "a", 1), m("k", 1, "b", 2), m("k", 2)}), m("l", []any{m("$match", m("k", 1), "z", m("n", 1, "m", 2))}), m("l", []any{m("$match", m(), "z", m("o", 3))}))
 	add("match-invert", "json", m("l", []any{m("k", 1), m("k", 2), m("j", 3)}), m("l", []any{m("$delete", m("k", 1, "$invert", true))}))
 	add("output-hide", "yaml", m("a", m("$output", false, "x", 1), "b", m("y", "$merge:a.x"), "c", m("$output", false, "d", m("$output", true, "v", 1))))
@@ -122,6 +127,10 @@ func c09Inputs(tier string) []c09Input {
 	add("case-variant-plain", "yaml", m("Key", 1, "key", 2, "kEy", m("A", 1, "a", 2)))
 	add("case-variant-merge", "json", m("Aa", 1, "aA", 2, "aa", 3), m("AA", 4, "aa", "$delete", "Aa", 9))
 	add("unicode-variant-keys", "json", m("é", 1, "e\u0301", 2, "É", 3, "f", m("$encode", "values", "é", 1, "É", 2)))
+	// evaluated keys that collide with sibling keys (last writer would win if the walk were unordered)
+	add("evaluated-key-collides", "json", m("name", "svc", "svc", "literal", `$"{name}"`, "interpolated"))
+	add("evaluated-key-collides-repeat", "json", m("hosts", m("host-0", "static", `$"host-{$repeat}"`, m("$repeat", 2, "v", "$repeat"))))
+	add("evaluated-key-collides-merge", "json", m("k", "x", "x", 1, "$merge:k", 2, "$replace:k", 3))
 	// YAML anchors and merge keys (yamlMerge ranges over maps)
 	ins = append(ins, c09Input{Kind: "yaml-merge-keys", Format: "json", YAML: "x: &x {a: 1, b: 2, c: 3}\ny: &y {a: 9, d: 4}\nz:\n  <<: [*x, *y]\n  e: 5\nw:\n  <<: *y\n  a: 0\n"})
 	ins = append(ins, c09Input{Kind: "yaml-stream", Format: "yaml", YAML: "a: 1\nb: {x: 1, y: 2}\n---\nc: 3\n$output: true\nd: {$output: true, e: 1}\n"})
